@@ -144,6 +144,9 @@ namespace
     int sv_mtx_empty = 0;   // SparseVector without entries fm_mtx
     int mtx_csr = 0, mtx_bcsr = 0; // fm_mtx write of an array-free CSR/BCSR matrix with rows
     int svb_file = 0;       // SparseVectorBlocked::write_out(mode, filename)
+    int bs_put = 0;         // BinaryStream: character output (put / operator<<(char)) goes through overflow()
+    int bs_get = 0;         // BinaryStream: character input (get / getline / operator>>) needs underflow()
+    int dfio_empty_text = 0; // DistFileIO::_read_file(std::stringstream&) of an empty file asserts stream.good()
     int dfio_stale = 0;     // DistFileIO::read_combined (serial) keeps stale content for an empty section
   };
   Hazards hz;
@@ -156,6 +159,9 @@ namespace
   const char* KEY_SVMTX = "SparseVector without entries: fm_mtx cannot be read back (array constructor with empty arrays / size 0)";
   const char* KEY_MTX_CSR = "fm_mtx write_out of an entry-free (array-free) SparseMatrixCSR matrix with rows walks the missing row pointer";
   const char* KEY_MTX_BCSR = "fm_mtx write_out of an entry-free (array-free) SparseMatrixBCSR matrix with rows walks the missing row pointer";
+  const char* KEY_BSPUT = "BinaryStream::put / operator<<(char) appends at the end without advancing the stream position: a following write() overwrites it (put('a'); write(\"bc\") gives \"bc\")";
+  const char* KEY_BSGET = "BinaryStream offers no character input (get/getline/operator>> return EOF: no underflow()): text modes written to a BinaryStream cannot be read back from it";
+  const char* KEY_DFIO_EMPTY = "DistFileIO::read_common/read_sequence(std::stringstream&) of an empty file aborts (stream << rdbuf() of nothing sets failbit, XASSERT(stream.good()))";
   const char* KEY_DFIO = "DistFileIO::read_combined (serial) does not resize an output vector whose section in the file is empty (stale content stays)";
   const char* KEY_SVBFILE = "SparseVectorBlocked::write_out(mode, filename) puts a 16 MiB stream buffer on the stack (stack overflow)";
 
@@ -344,6 +350,29 @@ namespace
           c.count("stream_round_trips");
         });
       }
+      // ---- configuration through the setters instead of the constructor; Container::bytes()
+      op(c, kind + " SerialConfig setters", [&]{
+        SerialConfig c2(false, false);
+        SerialConfig c3; // default: compression off in a build without zlib
+        c3.set_elements_compression(CompressionModes::elements_off);
+        c3.set_indices_compression(CompressionModes::indices_off);
+        c3.set_tolerance(FEAT::Real(1e-3));
+        c.check(c3.get_elements_compression() == CompressionModes::elements_off && c3.get_indices_compression() == CompressionModes::indices_off && c3.get_tolerance() == FEAT::Real(1e-3)
+          && c2.get_elements_compression() == c3.get_elements_compression() && c2.get_indices_compression() == c3.get_indices_compression(), "SerialConfig setters/getters", "");
+        // masks: a combined value only takes the part of the respective setter
+        SerialConfig c4(false, false);
+        c4.set_elements_compression(CompressionModes::compression_off);
+        c4.set_indices_compression(CompressionModes::compression_off);
+        c.check(c4.get_elements_compression() == CompressionModes::elements_off && c4.get_indices_compression() == CompressionModes::indices_off, "SerialConfig setters mask their argument", "");
+        const std::vector<char> b2 = x.serialize(c2), b3 = x.serialize(c3), b4 = x.serialize(c4);
+        c.check(b2 == b3 && b2 == b4, kind + " serialize with a setter-built SerialConfig differs from the constructor-built one", "");
+        c.check(x.get_checkpoint_size(c3) == x.get_checkpoint_size(c2), kind + " get_checkpoint_size with a setter-built SerialConfig", "");
+        std::size_t bytes = 0;
+        for(auto z : f0.esz) bytes += std::size_t(z) * sizeof(typename C::DataType);
+        for(auto z : f0.isz) bytes += std::size_t(z) * sizeof(typename C::IndexType);
+        bytes += f0.sidx.size() * sizeof(Index) + f0.sdt.size() * sizeof(typename C::DataType);
+        c.check(x.bytes() == bytes, kind + " bytes()", [&]{ return std::to_string(x.bytes()) + " expected " + std::to_string(bytes); });
+      });
       // ---- re-invocation: read into an already filled target that shares its storage with a bystander (shallow clone);
       //      the target must afterwards equal the source, the bystander must be untouched; read a second time into the same object
       op(c, kind + " read into filled target", [&]{
@@ -420,6 +449,19 @@ namespace
       C y(mode, ss);
       Sem s1 = sem(y);
       c.check(sem_equal(s0, s1, tol), kind + " " + ms + " read back differs", [&]{ return "got " + s1.str() + " expected " + s0.str() + " text=" + t1.substr(0, 300); });
+      {
+        // the same text through a BinaryStream: written bytes identical; read back when character input is available
+        BinaryStream bs;
+        x.write_out(mode, bs);
+        c.check(std::string(bs.container().begin(), bs.container().end()) == t1, kind + " " + ms + " written to a BinaryStream differs from the stringstream text", "");
+        if(hz.bs_get == 0 && bs.size() > 0)
+        {
+          bs.seekg(0);
+          C yb(mode, bs);
+          c.check(sem_equal(s0, sem(yb), tol), kind + " " + ms + " read back from a BinaryStream differs", [&]{ return sem(yb).str() + " expected " + s0.str(); });
+        }
+        else if(hz.bs_get != 0) c.excluded("text modes read from a BinaryStream (reported once as finding)");
+      }
       std::stringstream s2;
       y.write_out(mode, s2);
       c.check(s2.str() == t1, kind + " " + ms + " write(read(write)) not byte-identical", [&]{ return "first=" + t1.substr(0, 200) + " second=" + s2.str().substr(0, 200); });
@@ -667,6 +709,22 @@ int main(int argc, char** argv)
     hz.mtx_bcsr = probe([]{ SparseMatrixBCSR<double, u64, 2, 2> d(1, 1); std::stringstream s2; d.write_out(FileMode::fm_mtx, s2); SparseMatrixCSR<double, u64> b(FileMode::fm_mtx, s2);
       return b.rows() == 2 && b.columns() == 2 && b.used_elements() == 0; });
     hz.svb_file = probe([]{ SparseVectorBlocked<double, u64, 2> a(3); const std::string fn = scratch_file("probe"); a.write_out(FileMode::fm_binary, fn); SparseVectorBlocked<double, u64, 2> b(FileMode::fm_binary, fn); unlink(fn.c_str()); return b.size() == 3; });
+    hz.bs_put = probe([]{ BinaryStream b; b.put('a'); b.write("bc", 2); b << 'd'; b.write("e", 1);
+      return std::string(b.container().begin(), b.container().end()) == "abcde"; });
+    hz.bs_get = probe([]{ BinaryStream b; b.write("x y\nz\n", 6); b.seekg(0); int ch = b.get(); std::string w, l; b >> w; std::getline(b, l); std::getline(b, l);
+      return ch == 'x' && w == "y" && l == "z"; });
+    if(c.want()) { c.desc([]{ return std::string("probe: BinaryStream b; b.put('a'); b.write(\"bc\",2); b << 'd'; b.write(\"e\",1)"); });
+      c.check(hz.bs_put == 0, KEY_BSPUT, [&]{ return std::string(probe_txt(hz.bs_put)); }); }
+    if(c.want()) { c.desc([]{ return std::string("probe: BinaryStream holding \"x y\\nz\\n\": get(), operator>>(string), getline"); });
+      c.check(hz.bs_get == 0, KEY_BSGET, [&]{ return std::string(probe_txt(hz.bs_get)); }); }
+    hz.dfio_empty_text = probe([]{
+      const std::string fn = scratch_file("probe.empty.txt");
+      { std::ofstream o(fn); }
+      std::stringstream rs; DistFileIO::read_common(rs, fn);
+      unlink(fn.c_str());
+      return rs.str().empty(); });
+    if(c.want()) { c.desc([]{ return std::string("probe: DistFileIO::read_common(std::stringstream&, <empty file>)"); });
+      c.check(hz.dfio_empty_text == 0, KEY_DFIO_EMPTY, [&]{ return std::string(probe_txt(hz.dfio_empty_text)); }); }
     hz.dfio_stale = probe([]{
       const std::string fn = scratch_file("probe.cmb");
       Dist::Comm comm(Dist::Comm::world());
@@ -691,8 +749,8 @@ int main(int argc, char** argv)
         c.outcome("probe");
       }
     }
-    // ---- Pack
     using PT = Pack::Type;
+    // ---- Pack
     pack_type<std::int8_t>(c, "i8", {{PT::I8, "I8"}, {PT::I16, "I16"}, {PT::I64, "I64"}});
     pack_type<std::int16_t>(c, "i16", {{PT::I8, "I8"}, {PT::I16, "I16"}, {PT::I32, "I32"}});
     pack_type<std::int32_t>(c, "i32", {{PT::I16, "I16"}, {PT::I32, "I32"}, {PT::I64, "I64"}});
@@ -704,6 +762,115 @@ int main(int argc, char** argv)
     pack_type<float>(c, "f32", {{PT::F32, "F32"}, {PT::F64, "F64"}});
     pack_type<double>(c, "f64", {{PT::F32, "F32"}, {PT::F64, "F64"}});
 
+    // ---- Pack::Type names, deduction and element sizes
+    if(c.want())
+    {
+      c.desc([]{ return std::string("Pack::Type operator<< / operator>> round trip of every type name, deduct_type, element_size"); });
+      const std::pair<PT, const char*> names[] = {{PT::F16, "F16"}, {PT::F32, "F32"}, {PT::F64, "F64"}, {PT::F128, "F128"}, {PT::I8, "I8"}, {PT::I16, "I16"}, {PT::I32, "I32"}, {PT::I64, "I64"},
+        {PT::U8, "U8"}, {PT::U16, "U16"}, {PT::U32, "U32"}, {PT::U64, "U64"}, {PT::ZF16, "ZF16"}, {PT::ZF32, "ZF32"}, {PT::ZF64, "ZF64"}, {PT::ZF128, "ZF128"}, {PT::ZI8, "ZI8"}, {PT::ZI16, "ZI16"},
+        {PT::ZI32, "ZI32"}, {PT::ZI64, "ZI64"}, {PT::ZU8, "ZU8"}, {PT::ZU16, "ZU16"}, {PT::ZU32, "ZU32"}, {PT::ZU64, "ZU64"}, {PT::PF32, "PF32"}, {PT::PF64, "PF64"}};
+      for(auto& nm : names)
+      {
+        std::ostringstream os; os << nm.first;
+        c.check(os.str() == nm.second, std::string("pack type name written for ") + nm.second, [&]{ return os.str(); });
+        std::string lower(nm.second); for(char& ch : lower) ch = char(std::tolower(ch));
+        for(const std::string& txt : {std::string(nm.second), lower})
+        {
+          std::istringstream is(txt + " rest"); PT t = PT::None; is >> t; std::string rest; is >> rest;
+          c.check(!is.fail() && t == nm.first && rest == "rest", std::string("pack type name parsed for ") + nm.second, "");
+        }
+      }
+      { std::istringstream is("F65"); PT t = PT::None; is >> t; c.check(is.fail() && t == PT::None, "pack type name: unknown name must set failbit", ""); }
+      { std::ostringstream os; os << PT::None; c.check(os.str() == "???", "pack type name of an invalid type", ""); }
+      c.check(Pack::deduct_type<std::int8_t>() == PT::I8 && Pack::deduct_type<std::int16_t>() == PT::I16 && Pack::deduct_type<std::int32_t>() == PT::I32 && Pack::deduct_type<std::int64_t>() == PT::I64
+        && Pack::deduct_type<std::uint8_t>() == PT::U8 && Pack::deduct_type<std::uint16_t>() == PT::U16 && Pack::deduct_type<std::uint32_t>() == PT::U32 && Pack::deduct_type<std::uint64_t>() == PT::U64
+        && Pack::deduct_type<float>() == PT::F32 && Pack::deduct_type<double>() == PT::F64, "pack deduct_type", "");
+      c.check(Pack::element_size(PT::I8) == 1 && Pack::element_size(PT::U16) == 2 && Pack::element_size(PT::F32) == 4 && Pack::element_size(PT::I64) == 8 && Pack::element_size(PT::F128) == 16
+        && Pack::element_size(PT::ZF64 & PT::Mask_T) == 8, "pack element_size", "");
+      c.outcome("pack-names");
+    }
+    // ---- BinaryStream against a byte-vector model with ONE shared position: every operation history up to depth 4 (thorough 6)
+    {
+      // ops: 0 write(2 bytes), 1 put(char), 2 operator<<(char), 3 seekg(0), 4 seekp(0,end), 5 read(1 byte), 6 seekg(1), 7 get()
+      const int nops = 8;
+      const size_t depth = c.thorough ? 6 : 4;
+      std::vector<std::vector<int>> hists(1);
+      for(size_t d = 0; d < depth; ++d)
+      {
+        size_t first = 0; for(size_t k = 0; k < hists.size(); ++k) if(hists[k].size() == d) { first = k; break; }
+        const size_t last = hists.size();
+        for(size_t k = first; k < last; ++k) if(hists[k].size() == d) for(int o = 0; o < nops; ++o) { auto h = hists[k]; h.push_back(o); hists.push_back(h); }
+      }
+      for(size_t hi = 1; hi < hists.size(); hi += 64)
+      {
+        if(!c.want()) continue;
+        c.desc([&]{ return "BinaryStream histories #" + std::to_string(hi) + "..+63 (ops 0 write2,1 put,2 <<char,3 seekg(0),4 seekp(end),5 read1,6 seekg(1),7 get)"; });
+        for(size_t k = hi; k < std::min(hi + 64, hists.size()); ++k)
+        {
+          const auto& h = hists[k];
+          bool skip = false;
+          for(int o : h) { if((o == 1 || o == 2) && hz.bs_put != 0) skip = true; if(o == 7 && hz.bs_get != 0) skip = true; }
+          if(skip) { c.count("excluded:BinaryStream histories with character output/input (reported once as finding)"); continue; }
+          BinaryStream b; std::vector<char> m; size_t pos = 0; bool ok = true; std::string what; char next = 'a';
+          for(int o : h)
+          {
+            switch(o)
+            {
+            case 0: { char w[2] = {next, char(next + 1)}; next = char(next + 2); b.write(w, 2); if(m.size() < pos + 2) m.resize(pos + 2); m[pos] = w[0]; m[pos + 1] = w[1]; pos += 2; break; }
+            case 1: { b.put(next); if(m.size() < pos + 1) m.resize(pos + 1); m[pos++] = next++; break; }
+            case 2: { b << next; if(m.size() < pos + 1) m.resize(pos + 1); m[pos++] = next++; break; }
+            case 3: { if(m.empty()) break; b.seekg(0); pos = 0; break; }
+            case 4: { b.seekp(0, std::ios_base::end); pos = m.size(); break; }
+            case 5: { if(pos >= m.size()) break; char r = 0; b.read(&r, 1); if(!b.good() || r != m[pos]) { ok = false; what = "read"; } ++pos; break; }
+            case 6: { if(m.size() < 2) break; b.seekg(1); pos = 1; break; }
+            default: { if(pos >= m.size()) break; int r = b.get(); if(r != int((unsigned char)m[pos])) { ok = false; what = "get"; } ++pos; break; }
+            }
+            if(!b.good()) { ok = false; what += " stream not good"; }
+            if(std::vector<char>(b.container()) != m || b.size() != std::streamsize(m.size())) { ok = false; what += " content"; }
+            if(!ok) break;
+          }
+          c.check(ok, "BinaryStream history differs from the byte-vector model", [&]{ std::string t = what + " ops="; for(int o : h) t += std::to_string(o); return t + " content=[" + std::string(b.container().begin(), b.container().end()) + "] expected [" + std::string(m.begin(), m.end()) + "]"; });
+          // write_stream / read_stream copy the whole content
+          std::stringstream ss; b.write_stream(ss); BinaryStream b2; b2.write("zz", 2); b2.read_stream(ss);
+          c.check(b2.container() == m, "BinaryStream write_stream/read_stream", "");
+          b.clear(); c.check(b.size() == 0 && b.container().empty(), "BinaryStream clear", "");
+          c.count("binary_stream_histories");
+        }
+        c.nontrivial(verif::Hash().str("bshist").pod(hi).get());
+        c.outcome("binary-stream");
+      }
+    }
+    // ---- DistFileIO (serial): text streams: write_sequence / read_sequence / read_common with std::stringstream
+    for(size_t n = 0; n <= 5; ++n) for(int trunc = 0; trunc < 2; ++trunc)
+    {
+      if(!c.want()) continue;
+      c.desc([&]{ return "DistFileIO serial text streams, " + std::to_string(n) + " lines, truncate=" + std::to_string(trunc); });
+      if(n == 0 && hz.dfio_empty_text != 0) { c.excluded("DistFileIO text read of an empty file (reported once as finding)"); continue; }
+      Dist::Comm comm(Dist::Comm::world());
+      const std::string pat = scratch_file("seq") + ".***.txt";
+      std::string text; for(size_t i = 0; i < n; ++i) text += "line " + std::to_string(i) + " -7.5e-100\n";
+      // a longer file exists already
+      { std::stringstream old; old << text << "old content that is longer\n"; DistFileIO::write_sequence(old, pat, comm, true); }
+      std::stringstream ws; ws << text;
+      DistFileIO::write_sequence(ws, pat, comm, trunc != 0);
+      std::stringstream rs; if(n > 0) rs << "";
+      DistFileIO::read_sequence(rs, pat, comm);
+      if(trunc) c.check(rs.str() == text, "dist_file_io.sequence text round trip", [&]{ return rs.str(); });
+      else c.check(rs.str().compare(0, text.size(), text) == 0, "dist_file_io.sequence text round trip (truncate=false: prefix)", [&]{ return rs.str(); });
+      const std::string fname = DistFileIO::_rankname(pat, 0);
+      c.check(fname.find(".000.txt") != std::string::npos, "dist_file_io rank name padding", [&]{ return fname; });
+      std::stringstream rc; DistFileIO::read_common(rc, fname, comm);
+      c.check(rc.str() == rs.str(), "dist_file_io.read_common text", "");
+      std::stringstream rc2; DistFileIO::read_common(rc2, fname);
+      std::stringstream rs2; DistFileIO::read_sequence(rs2, pat);
+      c.check(rc2.str() == rs.str() && rs2.str() == rs.str(), "dist_file_io text overloads without communicator", "");
+      bool thrown = false;
+      try { std::stringstream x; DistFileIO::read_common(x, fname + ".missing", comm); } catch(const FileNotFound&) { thrown = true; }
+      c.check(thrown, "dist_file_io.read_common of a missing file must throw FileNotFound", "");
+      unlink(fname.c_str());
+      c.count("dist_file_io_round_trips");
+      c.outcome("dist_file_io");
+    }
     // ---- DistFileIO (serial): combined, ordered, sequence and common files for every pair of section sizes 0..5
     for(size_t nc = 0; nc <= 5; ++nc) for(size_t nb = 0; nb <= 5; ++nb) for(int prefill = 0; prefill < 2; ++prefill)
     {
@@ -783,13 +950,17 @@ int main(int argc, char** argv)
         // all ordered sequences of distinct indices of length 1..min(n,3)
         std::vector<std::vector<Index>> seqs;
         for(Index a = 0; a < n; ++a) { seqs.push_back({a}); for(Index b = 0; b < n; ++b) if(b != a) { seqs.push_back({a, b}); for(Index d = 0; d < n; ++d) if(d != a && d != b) seqs.push_back({a, b, d}); } }
+        // grown objects: re-setting indices makes the unsorted arrays grow past their first allocation (min(size,1000) entries)
+        for(Index a = 0; a < n; ++a) for(Index b = 0; b < n; ++b) if(b != a) { seqs.push_back({a, b, a}); if(n == 2) { seqs.push_back({a, b, a, b, a}); seqs.push_back({a, a, a}); } }
         for(auto& sq : seqs) for(int first = 0; first < 6; ++first)
         {
           if(!c.want()) continue;
           c.desc([&]{ std::string t = "SparseVector size " + std::to_string(n) + " insertions in order ["; for(Index k : sq) t += std::to_string(k) + ","; return t + "] first access " + std::to_string(first) + " (0 serialize,1 write_out binary,2 write_out fm_mtx,3 checkpoint data,4 operator==,5 clone)"; });
-          auto build = [&]{ SparseVector<double, u64> x(n); for(size_t k = 0; k < sq.size(); ++k) x(sq[k], pv(sq[k], 12)); return x; };
-          Sem want; want.dims = {n, Index(sq.size())};
-          { std::vector<Index> so(sq); std::sort(so.begin(), so.end()); for(Index k : so) { want.pos.push_back(k); want.vals.push_back(pv(k, 12)); } }
+          // the value depends on the position in the insertion sequence: the last value set for an index must survive
+          auto build = [&]{ SparseVector<double, u64> x(n); for(size_t k = 0; k < sq.size(); ++k) x(sq[k], pv(k * 5 + sq[k], 12)); return x; };
+          Sem want;
+          { std::map<Index, double> last; for(size_t k = 0; k < sq.size(); ++k) last[sq[k]] = pv(k * 5 + sq[k], 12);
+            want.dims = {n, Index(last.size())}; for(auto& e : last) { want.pos.push_back(e.first); want.vals.push_back(e.second); } }
           SparseVector<double, u64> x = build();
           SparseVector<double, u64> y;
           SerialConfig cfg(false, false);
